@@ -943,6 +943,16 @@ class DestHandler:
         next_segment_reqs = []
         if self._params.acked_params.metadata_missing:
             next_segment_reqs.append((0, 0))
+            if len(next_segment_reqs) == max_segments_in_one_pdu:
+                self._add_packet_to_be_sent(
+                    NakPdu(
+                        self._params.pdu_conf,
+                        0,
+                        self._params.fp.file_size_eof,
+                        next_segment_reqs,
+                    )
+                )
+                next_segment_reqs = []
         for (
             start,
             end,
